@@ -15,7 +15,8 @@ AllInside(e) == \A k \in 1..Len(e.frac) : \A c \in 1..3 : -200 <= e.frac[k][c] /
 Thickness(e) == Abs(e.c_len - (IF e.extent > e.min_thick THEN e.extent ELSE e.min_thick)) <= DL
 \* ... and the extent is the one of the layer that was supplied (measured by the harness on the input along the plane normal),
 \* not only the one of the returned cell: a layer returned cut in two by the cell boundary has the wrong thickness
-ThicknessOfInput(e) == Abs(e.c_len - (IF e.extent_in > e.min_thick THEN e.extent_in ELSE e.min_thick)) <= 2 * DL
+\* (positions are idealised within the symmetry tolerance of the analysis, 0.05 A, at both faces of the layer)
+ThicknessOfInput(e) == Abs(e.c_len - (IF e.extent_in > e.min_thick THEN e.extent_in ELSE e.min_thick)) <= 1000 + DL
 NormalPerpendicular(e) == Abs(e.alpha - 900000) <= DA /\ Abs(e.beta - 900000) <= DA
 SameLabels(e) == e.id = F(e).id /\ e.number = F(e).number /\ Occ(e.occ) = Occ(F(e).occ)
 \* in-plane lattice parameters up to the a <-> b exchange that a flip of the sheet may cause is NOT allowed:
